@@ -10,19 +10,19 @@ namespace Pegtl
 
 /-- One rule invocation with everything that happened inside it. -/
 inductive Invoc
-  | mk (id : Nat) (a : AMode) (m : RMode) (res : Nat) (b e : Cursor) (kids : List Invoc)
+  | mk (id : Nat) (a : AMode) (m : RMode) (kc : Nat) (res : Nat) (b e : Cursor) (kids : List Invoc)
   deriving Repr, Inhabited
 
-def Invoc.id : Invoc → Nat | .mk i _ _ _ _ _ _ => i
-def Invoc.res : Invoc → Nat | .mk _ _ _ r _ _ _ => r
-def Invoc.b : Invoc → Cursor | .mk _ _ _ _ b _ _ => b
-def Invoc.e : Invoc → Cursor | .mk _ _ _ _ _ e _ => e
-def Invoc.kids : Invoc → List Invoc | .mk _ _ _ _ _ _ k => k
+def Invoc.id : Invoc → Nat | .mk i _ _ _ _ _ _ _ => i
+def Invoc.res : Invoc → Nat | .mk _ _ _ _ r _ _ _ => r
+def Invoc.b : Invoc → Cursor | .mk _ _ _ _ _ b _ _ => b
+def Invoc.e : Invoc → Cursor | .mk _ _ _ _ _ _ e _ => e
+def Invoc.kids : Invoc → List Invoc | .mk _ _ _ _ _ _ _ k => k
 
 mutual
 /-- The `enter` / `exit` events of an invocation tree, in order. -/
 def Invoc.flat : Invoc → List Ev
-  | .mk i a m res b e kids => Ev.enter i a m b :: flatL kids ++ [Ev.exit i res e]
+  | .mk i a m kc res b e kids => Ev.enter i a m b kc :: flatL kids ++ [Ev.exit i res e]
 def flatL : List Invoc → List Ev
   | [] => []
   | t :: ts => t.flat ++ flatL ts
@@ -35,7 +35,7 @@ mutual
     contributions of its sub-invocations, in order, passed through the rule's transformer; a
     successful invocation of any other rule contributes the contributions of its sub-invocations. -/
 def specT (cls : Nat → Cls) : Invoc → Forest
-  | .mk i _ _ res b e kids =>
+  | .mk i _ _ _ res b e kids =>
     if res ≠ 1 then []
     else match cls i with
       | .sel s => transformNode s ⟨i, b, e, true⟩ (specL cls kids)
@@ -48,7 +48,7 @@ end
 mutual
 /-- No selected rule anywhere in the invocation tree. -/
 def noSelT (cls : Nat → Cls) : Invoc → Bool
-  | .mk i _ _ _ _ _ kids => (match cls i with | .sel _ => false | _ => true) && noSelL cls kids
+  | .mk i _ _ _ _ _ _ kids => (match cls i with | .sel _ => false | _ => true) && noSelL cls kids
 def noSelL (cls : Nat → Cls) : List Invoc → Bool
   | [] => true
   | t :: ts => noSelT cls t && noSelL cls ts
@@ -58,7 +58,7 @@ mutual
 /-- The leaf optimisation is sound on this invocation tree: below a rule classified `leaf` no selected
     rule is ever invoked. -/
 def leafOKT (cls : Nat → Cls) : Invoc → Bool
-  | .mk i _ _ _ _ _ kids => (match cls i with | .leaf => noSelL cls kids | _ => true) && leafOKL cls kids
+  | .mk i _ _ _ _ _ _ kids => (match cls i with | .leaf => noSelL cls kids | _ => true) && leafOKL cls kids
 def leafOKL (cls : Nat → Cls) : List Invoc → Bool
   | [] => true
   | t :: ts => leafOKT cls t && leafOKL cls ts
@@ -76,7 +76,7 @@ theorem runTree_append (cls : Nat → Cls) (s : List TFrame) (a b : List Ev) :
 
 mutual
 theorem spec_noSelT (cls : Nat → Cls) : ∀ t : Invoc, noSelT cls t = true → specT cls t = []
-  | .mk i a m res b e kids => by
+  | .mk i a m kc res b e kids => by
     intro h
     simp only [noSelT, Bool.and_eq_true] at h
     have hk := spec_noSelL cls kids h.2
@@ -103,10 +103,10 @@ theorem runTree_single (cls : Nat → Cls) (s : List TFrame) (e : Ev) : runTree 
   rw [runTree_cons]
   cases treeStep cls s e <;> rfl
 
-theorem runTree_node (cls : Nat → Cls) (s : List TFrame) (i : Nat) (a : AMode) (m : RMode) (b e : Cursor) (res : Nat)
+theorem runTree_node (cls : Nat → Cls) (s : List TFrame) (i : Nat) (a : AMode) (m : RMode) (kc : Nat) (b e : Cursor) (res : Nat)
     (kids : List Invoc) :
-    runTree cls s (Invoc.mk i a m res b e kids).flat =
-      (treeStep cls s (.enter i a m b)).bind fun s1 =>
+    runTree cls s (Invoc.mk i a m kc res b e kids).flat =
+      (treeStep cls s (.enter i a m b kc)).bind fun s1 =>
         (runTree cls s1 (flatL kids)).bind fun s2 => treeStep cls s2 (.exit i res e) := by
   simp only [Invoc.flat, List.cons_append]
   rw [runTree_cons]
@@ -121,7 +121,7 @@ mutual
 /-- Below no selected rule the machine leaves every frame that existed before untouched. -/
 theorem run_noSelT (cls : Nat → Cls) : ∀ (t : Invoc) (f : TFrame) (stk : List TFrame), noSelT cls t = true →
     runTree cls (f :: stk) t.flat = some (f :: stk)
-  | .mk i a m res b e kids => by
+  | .mk i a m kc res b e kids => by
     intro f stk h
     simp only [noSelT, Bool.and_eq_true] at h
     obtain ⟨hc, hk⟩ := h
@@ -129,14 +129,14 @@ theorem run_noSelT (cls : Nat → Cls) : ∀ (t : Invoc) (f : TFrame) (stk : Lis
     cases hcls : cls i with
     | sel s => simp [hcls] at hc
     | leaf =>
-      have hE : treeStep cls (f :: stk) (.enter i a m b) = some (f :: stk) := by simp [treeStep, hcls]
+      have hE : treeStep cls (f :: stk) (.enter i a m b kc) = some (f :: stk) := by simp [treeStep, hcls]
       have hX : treeStep cls (f :: stk) (.exit i res e) = some (f :: stk) := by simp [treeStep, hcls]
       rw [hE]
       simp only [Option.bind_some]
       rw [run_noSelL cls kids f stk hk]
       simpa using hX
     | branch =>
-      have hE : treeStep cls (f :: stk) (.enter i a m b) = some (⟨b, []⟩ :: f :: stk) := by simp [treeStep, hcls]
+      have hE : treeStep cls (f :: stk) (.enter i a m b kc) = some (⟨b, []⟩ :: f :: stk) := by simp [treeStep, hcls]
       have hX : treeStep cls (⟨b, []⟩ :: f :: stk) (.exit i res e) = some (f :: stk) := by
         simp only [treeStep, hcls]
         split <;> simp
@@ -161,7 +161,7 @@ mutual
     children of the top frame — provided the leaf optimisation is sound on that tree. -/
 theorem run_specT (cls : Nat → Cls) : ∀ (t : Invoc) (f : TFrame) (stk : List TFrame), leafOKT cls t = true →
     runTree cls (f :: stk) t.flat = some ({ f with kids := f.kids ++ specT cls t } :: stk)
-  | .mk i a m res b e kids => by
+  | .mk i a m kc res b e kids => by
     intro f stk h
     simp only [leafOKT, Bool.and_eq_true] at h
     obtain ⟨hleaf, hk⟩ := h
@@ -169,7 +169,7 @@ theorem run_specT (cls : Nat → Cls) : ∀ (t : Invoc) (f : TFrame) (stk : List
     cases hcls : cls i with
     | leaf =>
       simp only [hcls] at hleaf
-      have hE : treeStep cls (f :: stk) (.enter i a m b) = some (f :: stk) := by simp [treeStep, hcls]
+      have hE : treeStep cls (f :: stk) (.enter i a m b kc) = some (f :: stk) := by simp [treeStep, hcls]
       have hX : treeStep cls (f :: stk) (.exit i res e) = some (f :: stk) := by simp [treeStep, hcls]
       rw [hE]
       simp only [Option.bind_some]
@@ -177,7 +177,7 @@ theorem run_specT (cls : Nat → Cls) : ∀ (t : Invoc) (f : TFrame) (stk : List
       simp only [Option.bind_some, hX, specT, hcls, spec_noSelL cls kids hleaf]
       split <;> simp
     | branch =>
-      have hE : treeStep cls (f :: stk) (.enter i a m b) = some (⟨b, []⟩ :: f :: stk) := by simp [treeStep, hcls]
+      have hE : treeStep cls (f :: stk) (.enter i a m b kc) = some (⟨b, []⟩ :: f :: stk) := by simp [treeStep, hcls]
       rw [hE]
       simp only [Option.bind_some]
       rw [run_specL cls kids ⟨b, []⟩ (f :: stk) hk]
@@ -186,7 +186,7 @@ theorem run_specT (cls : Nat → Cls) : ∀ (t : Invoc) (f : TFrame) (stk : List
       · simp [hr]
       · simp [hr]
     | sel s =>
-      have hE : treeStep cls (f :: stk) (.enter i a m b) = some (⟨b, []⟩ :: f :: stk) := by simp [treeStep, hcls]
+      have hE : treeStep cls (f :: stk) (.enter i a m b kc) = some (⟨b, []⟩ :: f :: stk) := by simp [treeStep, hcls]
       rw [hE]
       simp only [Option.bind_some]
       rw [run_specL cls kids ⟨b, []⟩ (f :: stk) hk]
@@ -210,7 +210,7 @@ end
 /-! ### every trace of the model is the event list of an invocation tree -/
 
 def Ev.isEE : Ev → Bool
-  | .enter _ _ _ _ => true
+  | .enter _ _ _ _ _ => true
   | .exit _ _ _ => true
   | _ => false
 
@@ -259,6 +259,7 @@ theorem Forested_closed : RawClosed Forested where
   sctor := fun _ => ⟨[], rfl⟩
   ssucc := fun _ _ _ => ⟨[], rfl⟩
   sdtor := fun _ => ⟨[], rfl⟩
+  ract := fun _ _ _ _ => ⟨[], rfl⟩
 
 theorem Forested.other {e : Ev} (h : e.isEE = false) : Forested [e] := ⟨[], by simp [proj, h, flatL]⟩
 
@@ -283,7 +284,7 @@ theorem afterBody_forested (cx : Ctx) (i : Nat) (a : AMode) (act : ActionSpec) (
     split
     · exact Forested.other rfl
     · exact Forested_closed.nil
-  · exact Forested_closed.app h (Forested.other rfl)
+  · exact failureHook_raw_closed Forested_closed.app (Forested.other rfl) (fun _ => Forested.other rfl) h
   · simp only
     split
     · exact Forested_closed.app h (Forested.other rfl)
@@ -291,7 +292,7 @@ theorem afterBody_forested (cx : Ctx) (i : Nat) (a : AMode) (act : ActionSpec) (
       split
       · exact Forested.other rfl
       · exact Forested_closed.nil
-    · exact Forested_closed.app h (Forested.cons_other act_other (Forested.other rfl))
+    · exact failureHook_raw_closed Forested_closed.app (Forested.other rfl) (fun _ => Forested.other rfl) (Forested_closed.app h (Forested.other act_other))
     · exact Forested_closed.app h (Forested.cons_other act_other (Forested.other rfl))
 
 def FoRec (rec : Rec) : Prop := ∀ j a m env st r, rec j a m env st = some r → Forested r.raw
@@ -305,7 +306,7 @@ theorem nodeCore_forested {rec : Rec} (hrec : FoRec rec) (cx : Ctx) (k i : Nat) 
     obtain ⟨r0, h0, rfl⟩ := h
     have hb := body_raw Forested_closed hrec cx k _ _ _ _ _ _ h0
     simp only [guardRestore_raw]
-    exact Forested.cons_other rfl (afterBody_forested cx i a _ _ st.cur r0 hb)
+    exact Forested.cons_other rfl (afterBody_forested _ i a _ _ st.cur r0 hb)
 
 theorem stateScope_forested {cx : Ctx} {o : Nat} {b : Bool} {r : Ret} (h : Forested r.raw) :
     Forested (stateScope cx o b r).raw := by
@@ -353,11 +354,12 @@ theorem nodeCall_tree {rec : Rec} (hrec : FoRec rec) (cx : Ctx) (k i : Nat) (a :
       · simp only [Option.map_eq_some_iff] at h0
         obtain ⟨r1, h1, rfl⟩ := h0
         exact stateScope_forested (hrec _ _ _ _ _ _ h1)
+      · exact nodeCore_forested hrec cx k i nd a m _ st r0 h0
     obtain ⟨ts, hts⟩ := key
-    refine ⟨.mk i a m r0.res.code (cx.rep st.cur) (cx.rep r0.st.cur) ts, ?_, rfl, by simp [Invoc.res], rfl, by simp [Invoc.e]⟩
+    refine ⟨.mk i a m env.ctl r0.res.code (cx.rep st.cur) (cx.rep r0.st.cur) ts, ?_, rfl, by simp [Invoc.res], rfl, by simp [Invoc.e]⟩
     simp only [bracket, dropOnFail_raw, dropOnFail_res, Invoc.flat]
-    have : proj (Ev.enter i a m (cx.rep st.cur) :: r0.raw ++ [Ev.exit i r0.res.code (cx.rep r0.dropOnFail.st.cur)]) =
-        Ev.enter i a m (cx.rep st.cur) :: proj r0.raw ++ [Ev.exit i r0.res.code (cx.rep r0.dropOnFail.st.cur)] := by
+    have : proj (Ev.enter i a m (cx.rep st.cur) env.ctl :: r0.raw ++ [Ev.exit i r0.res.code (cx.rep r0.dropOnFail.st.cur)]) =
+        Ev.enter i a m (cx.rep st.cur) env.ctl :: proj r0.raw ++ [Ev.exit i r0.res.code (cx.rep r0.dropOnFail.st.cur)] := by
       simp only [proj, List.cons_append, List.filter_cons, List.filter_append, List.filter_nil, Ev.isEE, if_true]
     rw [this, hts]
     simp [Ret.dropOnFail]
@@ -386,7 +388,7 @@ mutual
 /-- The invocation tree respects the rule table: every invocation directly below an invocation of
     rule `i` is of a rule that `i`'s `match()` can call. -/
 def dynT (g : Grammar) : Invoc → Bool
-  | .mk i _ _ _ _ _ kids => kidsIn (subsOf g i) kids && dynL g kids
+  | .mk i _ _ _ _ _ _ kids => kidsIn (subsOf g i) kids && dynL g kids
 def dynL (g : Grammar) : List Invoc → Bool
   | [] => true
   | t :: ts => dynT g t && dynL g ts
@@ -417,6 +419,7 @@ theorem ForestIn_closed (g : Grammar) (S : List Nat) : RawClosedE (fun _ => Fore
       by rw [dynL_append, da, db]; rfl⟩
   raise := fun _ _ _ => ⟨[], rfl, rfl, rfl⟩
   fam := id
+  ctlf := id
   scope := by
     rintro env l o ho ⟨ts, hts, k, d⟩
     refine ⟨ts, ?_, k, d⟩
@@ -444,7 +447,7 @@ theorem afterBody_forestIn (g : Grammar) (S : List Nat) (cx : Ctx) (i : Nat) (a 
     split
     · exact ForestIn.other rfl
     · exact ⟨[], rfl, rfl, rfl⟩
-  · exact h.app (ForestIn.other rfl)
+  · exact failureHook_raw_closed ForestIn.app (ForestIn.other rfl) (fun _ => ForestIn.other rfl) h
   · simp only
     split
     · exact h.app (ForestIn.other rfl)
@@ -452,7 +455,7 @@ theorem afterBody_forestIn (g : Grammar) (S : List Nat) (cx : Ctx) (i : Nat) (a 
       split
       · exact ForestIn.other rfl
       · exact ⟨[], rfl, rfl, rfl⟩
-    · exact h.app (ForestIn.cons_other act_other (ForestIn.other rfl))
+    · exact failureHook_raw_closed ForestIn.app (ForestIn.other rfl) (fun _ => ForestIn.other rfl) (h.app (ForestIn.other act_other))
     · exact h.app (ForestIn.cons_other act_other (ForestIn.other rfl))
 
 /-- No action class with a `match()` of its own is attached anywhere (parse_tree grammars: such a
@@ -487,7 +490,9 @@ theorem nodeCall_dyn {rec : Rec} (cx : Ctx) (hnw : NoWraps cx) (hrec : DynRec cx
       exact body_rawS (ForestIn_closed cx.g nd.kind.calls) cx k nd.kind a
         (fun j hj m env st r hr => (hrec j a m env st r hr).forestIn hj)
         (fun j hj m env st r hr => (hrec j .nothing m env st r hr).forestIn hj)
-        (fun _ j hj m env st r hr => (hrec j .action m env st r hr).forestIn hj) mm env st r1 h1
+        (fun _ j hj m env st r hr => (hrec j .action m env st r hr).forestIn hj) mm env
+        (fun _ acts b e => runActs_raw (Q := ForestIn cx.g nd.kind.calls) ⟨[], rfl, rfl, rfl⟩ ForestIn.app cx env.sd b e
+          (fun _ => ForestIn.other rfl) acts) st r1 h1
     have key : ForestIn cx.g nd.kind.calls r0.raw := by
       unfold nodeCore at h0
       split at h0
@@ -495,12 +500,12 @@ theorem nodeCall_dyn {rec : Rec} (cx : Ctx) (hnw : NoWraps cx) (hrec : DynRec cx
       · simp only [Option.map_eq_some_iff] at h0
         obtain ⟨r1, h1, rfl⟩ := h0
         simp only [guardRestore_raw]
-        exact ForestIn.cons_other rfl (afterBody_forestIn _ _ cx i a _ _ st.cur r1 (hb _ _ h1))
+        exact ForestIn.cons_other rfl (afterBody_forestIn _ _ _ i a _ _ st.cur r1 (hb _ _ h1))
     obtain ⟨ts, hts, hk, hd⟩ := key
-    refine ⟨.mk i a m r0.res.code (cx.rep st.cur) (cx.rep r0.st.cur) ts, ?_, rfl, by simp [Invoc.res], rfl, by simp [Invoc.e], ?_⟩
+    refine ⟨.mk i a m env.ctl r0.res.code (cx.rep st.cur) (cx.rep r0.st.cur) ts, ?_, rfl, by simp [Invoc.res], rfl, by simp [Invoc.e], ?_⟩
     · simp only [bracket, dropOnFail_raw, dropOnFail_res, Invoc.flat]
-      have : proj (Ev.enter i a m (cx.rep st.cur) :: r0.raw ++ [Ev.exit i r0.res.code (cx.rep r0.dropOnFail.st.cur)]) =
-          Ev.enter i a m (cx.rep st.cur) :: proj r0.raw ++ [Ev.exit i r0.res.code (cx.rep r0.dropOnFail.st.cur)] := by
+      have : proj (Ev.enter i a m (cx.rep st.cur) env.ctl :: r0.raw ++ [Ev.exit i r0.res.code (cx.rep r0.dropOnFail.st.cur)]) =
+          Ev.enter i a m (cx.rep st.cur) env.ctl :: proj r0.raw ++ [Ev.exit i r0.res.code (cx.rep r0.dropOnFail.st.cur)] := by
         simp only [proj, List.cons_append, List.filter_cons, List.filter_append, List.filter_nil, Ev.isEE, if_true]
       rw [this, hts]
       simp [Ret.dropOnFail]
@@ -532,7 +537,7 @@ mutual
 theorem noSel_of_leafT (g : Grammar) (selMap : Nat → Option Sel) :
     ∀ (L : Nat) (t : Invoc), dynT g t = true → (selOf g selMap t.id).isNone = true →
       isLeaf g selMap L (subsOf g t.id) = true → noSelT (clsOf g selMap) t = true
-  | L, .mk i a m res b e kids => by
+  | L, .mk i a m kc res b e kids => by
     intro hd hs hl
     simp only [dynT, Bool.and_eq_true] at hd
     simp only [Invoc.id] at hs hl
@@ -570,7 +575,7 @@ mutual
     respects the table. -/
 theorem leafOK_of_dynT (g : Grammar) (selMap : Nat → Option Sel) : ∀ t : Invoc, dynT g t = true →
     leafOKT (clsOf g selMap) t = true
-  | .mk i a m res b e kids => by
+  | .mk i a m kc res b e kids => by
     intro hd
     simp only [dynT, Bool.and_eq_true] at hd
     simp only [leafOKT, Bool.and_eq_true]
@@ -606,7 +611,7 @@ def SameSel (c1 c2 : Nat → Cls) : Prop :=
 mutual
 /-- The specification depends on the classification only through which rules are selected. -/
 theorem specT_sameSel (c1 c2 : Nat → Cls) (h : SameSel c1 c2) : ∀ t : Invoc, specT c1 t = specT c2 t
-  | .mk i a m res b e kids => by
+  | .mk i a m kc res b e kids => by
     simp only [specT]
     rw [specL_sameSel c1 c2 h kids]
     split
